@@ -597,3 +597,8 @@ for _s1, _s2 in ((+1, -1), (-1, +1)):
     # the marginal-type variants explore 40-64 paths at ~2 s each: thorough tier only (same obligations as the other variants)
     for _kind in (('marginal', 'chief') if _os.environ.get('VERIF_TIER_EFFECTIVE', 'quick') == 'thorough' else ('chief',)):
         _system_jets(_s1, _s2, True, 'object_height', _kind)
+
+
+# concrete inputs found by the defect-hunting sub-agents (bounded replay, see contracts/hunt.py)
+from . import hunt as _hunt  # noqa: E402
+_hunt.register('C05')
